@@ -244,18 +244,31 @@ def _append_root_metadata(
                     metadata_groups.append(k)
     # loop
     for key in root._metadata:
+        md = root._metadata[key]
         # if this group already exists
         if key in metadata_groups:
-            # overwrite it
+            # overwrite it, putting the old entry back if that fails
             if appendover:
-                del(mdbundle_group[key])
-                root._metadata[key].to_h5(mdbundle_group)
+                mdbundle_group.move(key,"_tmp_"+key)
+                try:
+                    md.to_h5(mdbundle_group)
+                    del(mdbundle_group["_tmp_"+key])
+                except Exception:
+                    if md.name in mdbundle_group:
+                        del(mdbundle_group[md.name])
+                    mdbundle_group.move("_tmp_"+key,key)
+                    raise
             # or skip it
             else:
                 pass
-        # otherwise, write it
+        # otherwise, write it, leaving no half-written entry behind
         else:
-            root._metadata[key].to_h5(mdbundle_group)
+            try:
+                md.to_h5(mdbundle_group)
+            except Exception:
+                if md.name in mdbundle_group:
+                    del(mdbundle_group[md.name])
+                raise
     return
 
 def _validate_treepath(
